@@ -34,7 +34,7 @@ Theorem C09_faithful : forall auth md calls h t,
   valid_user md calls = true -> has_hop md calls = false ->
   all_bytes (user_pairs md calls) -> all_bytes (pairs_of h) -> all_bytes (pairs_of t) ->
   rpc auth md calls h t =
-    [0; 1] ++ dump (transport_md auth ++ group (visible (user_pairs md calls)))
+    [0; 1; 1] ++ dump (transport_md auth ++ group (visible (user_pairs md calls)))
            ++ dump ((n_content_type, [ct_grpc]) :: group (visible (pairs_of h)))
            ++ dump (group (visible (pairs_of t))).
 Proof. exact rpc_faithful. Qed.
@@ -62,9 +62,10 @@ Proof. exact reserved_not_surfaced. Qed.
 Print Assumptions C09_reserved_not_surfaced.
 
 (* "invalid user metadata fails the RPC with INTERNAL before anything is sent": code 13,
-   handler not invoked, no header, no trailer *)
+   handler not invoked, no header field written to the wire (third component 0), no
+   header, no trailer *)
 Theorem C09_invalid_rejected : forall auth md calls h t, valid_user md calls = false ->
-  rpc auth md calls h t = [13; 0] ++ dump [] ++ dump [] ++ dump [].
+  rpc auth md calls h t = [13; 0; 0] ++ dump [] ++ dump [] ++ dump [].
 Proof. exact rpc_invalid_rejected. Qed.
 Print Assumptions C09_invalid_rejected.
 
@@ -75,8 +76,8 @@ Theorem C09_hop_names_refuted :
   valid_user md_host1 [] = true /\ valid_user md_host2 [] = true /\ valid_user md_conn [] = true /\
   rpc [97] md_host1 [] [] [] = expect_ok [97] [] [] [] [] /\
   rpc [97] md_host1 [] [] [] <> expect_ok [97] md_host1 [] [] [] /\
-  rpc [97] md_host2 [] [] [] = fail_obs 13 [(n_content_type, [ct_grpc])] /\
-  rpc [97] md_conn [] [] [] = fail_obs 13 [].
+  rpc [97] md_host2 [] [] [] = fail_obs 13 1 [(n_content_type, [ct_grpc])] /\
+  rpc [97] md_conn [] [] [] = fail_obs 13 1 [].
 Proof. exact hop_names_refuted. Qed.
 Print Assumptions C09_hop_names_refuted.
 
@@ -94,7 +95,7 @@ Example C09_witness :
                   1; 1;104; 1; 1;49; 1; 11;103;114;112;99;45;115;116;97;116;117;115; 1; 1;53]] = true /\
   run [1; 97] [[1; 1; 5;97;45;98;105;110; 1; 1;255; 1; 2; 5;65;45;66;105;110; 1;0; 2;84;69; 1;120;
                 1; 1;104; 1; 1;49; 1; 11;103;114;112;99;45;115;116;97;116;117;115; 1; 1;53]] =
-  Some [[0; 1; 4; 10;58;97;117;116;104;111;114;105;116;121; 1; 1;97; 5;97;45;98;105;110; 2; 1;255; 1;0;
+  Some [[0; 1; 1; 4; 10;58;97;117;116;104;111;114;105;116;121; 1; 1;97; 5;97;45;98;105;110; 2; 1;255; 1;0;
          12;99;111;110;116;101;110;116;45;116;121;112;101; 1; 2;67;84;
          10;117;115;101;114;45;97;103;101;110;116; 1; 2;85;65;
          2; 12;99;111;110;116;101;110;116;45;116;121;112;101; 1; 2;67;84; 1;104; 1; 1;49; 0]].
